@@ -12,6 +12,13 @@ RULE = ("generated: exhaustive buffers of 0-2 bytes over an 8-value alphabet x e
 ASSUMPTIONS = ["int.from_bytes / bytes slicing / int.to_bytes are CPython's"]
 
 
+def tables():
+    """the translated part of the model: packets._extract_bits is turned into Gallina from the current source and proved equal
+    to Model/Cursor.v's extract_bits (Gen/FunOk_C03.v) on every run"""
+    import gen_fun
+    return gen_fun.check("C03", [("space_packet_parser/packets.py", "_extract_bits", "gen_extract_bits")], "FunOk_C03")
+
+
 def gen(rng, tier):
     cases = []
     alpha = [0x00, 0xFF, 0x80, 0x01, 0x35, 0xCA, 0x55, 0xAA]
